@@ -25,6 +25,9 @@ using Dyn = pgm::DynamicPGMIndex<DK, DV, PGMT>;
 #define LCAP 8
 #endif
 
+#ifndef INV_DETAIL_LEVELS
+#define INV_DETAIL_LEVELS 5
+#endif
 struct pgm_verif_access {
     struct PA : PGMT { using PGMT::n; using PGMT::first_key; using PGMT::segments; };
     using Item = typename Dyn::Item;
@@ -52,6 +55,10 @@ struct pgm_verif_access {
         for (size_t j = 0; j < nlev; ++j) {
             uint8_t lv = uint8_t(d.min_level + j);
             const auto &L = d.levels[j];
+            if (j >= INV_DETAIL_LEVELS) {   // levels no history inside the bounds can reach: they must simply be empty
+                if (!L.empty()) bad |= 4;
+                continue;
+            }
             for (size_t t = 1; t < L.size(); ++t)
                 if (!(L[t - 1].first < L[t].first)) bad |= 1;
             size_t cap = lv == d.min_level ? d.buffer_max_size : d.max_size(lv);
